@@ -52,6 +52,10 @@ CLAIMED["C08"] = dict(engine="E1", technique="symbolic execution of the real con
     text="Total / average / per-antenna power: for every item of every stated layout and all sample values |x| <= 100: output power <= target (both the normal and the zero-signal branch), >= 99.9% of the target when the input power is >= 1e-4, output is a positive real multiple of the input (signs and phases preserved); peak amplitude: every sample clipped to [-A, A] and unchanged inside; composite == sequential application term-wise. Idempotence, complex (2,2) layouts and the OFDM factory composite are stretch items. The PAPR bound is outside the claim.",
     note="Floats of symbolic quantities are treated as reals (explicit margins in every obligation); targets are concrete values from a grid; item sizes 2..3 (4 thorough).",
     ref="DESIGN.md §4 C08, §6")
+CLAIMED["C07"] = dict(engine="E1", technique="symbolic execution of the real channels / SNR utilities with Gaussian and uniform draws stubbed to symbolic reals; noise terms are polynomials in the draws with purified sqrt; z3 QF_NRA (+ uninterpreted log/10^x with sound axioms) decides the scale and SNR identities",
+    text="AWGN (real / complex, power symbolic or on a grid, SNR on a grid): for all inputs and all unit draws the added noise equals draw x sqrt(P) per real component (P/2 per complex component), P being the configured power or signal power / 10^(snr/10); caller-supplied noise is added verbatim; Laplacian: same-draw relation noise(P) = sqrt(P/(2c)) x unit-scale noise with c real components; add_noise_for_snr, the SNR metric (linear) and the dB<->linear<->noise-power conversions agree with the same definition.",
+    note="Trusted lemmas: torch's generators deliver the unit laws, Var of the Laplacian transform is 2. Empirical powers of real draws are outside the claim. 1e-5 relative margin for the float32 conversion of the computed power.",
+    ref="DESIGN.md §4 C07")
 NOT_YET = {}
 
 PENDING_REASON = "check not built yet in this round (planned: see DESIGN.md §8); not claimed until its check exists"
